@@ -512,6 +512,23 @@ func ruleLibMath(c *Ctx, r *R) {
 				}
 			}
 			r.check(okGuard, "pow:guard", c.Pos(instrPos(pc)), "|x| == 1 && IsInf(y) tested before math.Pow", "math.Pow(±1, ±Inf) returns 1 but ES5 §15.8.2.13 requires NaN: the call is not dominated by a test of |x| == 1 with infinite y")
+			// the exponent passes an IsNaN test whose true side does not reach the library call: math.Pow(1, NaN) is 1
+			okNaN := false
+			if len(pc.Call.Args) == 2 {
+				y := pc.Call.Args[1]
+				for _, b := range fn.Blocks {
+					iff, ok := b.Instrs[len(b.Instrs)-1].(*ssa.If)
+					if !ok {
+						continue
+					}
+					if call, ok := iff.Cond.(*ssa.Call); ok && call.Call.StaticCallee() != nil && call.Call.StaticCallee().Name() == "IsNaN" && (call.Call.Args[0] == y || sameSSA(call.Call.Args[0], y, 0)) {
+						if b.Dominates(pc.Block()) && !reaches(b.Succs[0], pc.Block(), map[*ssa.BasicBlock]bool{b: true}) {
+							okNaN = true
+						}
+					}
+				}
+			}
+			r.check(okNaN, "pow:nan-exponent", c.Pos(instrPos(pc)), "a NaN exponent returns before math.Pow", "math.Pow(1, NaN) returns 1 but ES5 §15.8.2.13 says \"if y is NaN, the result is NaN\": the call is not preceded by an IsNaN test of the exponent that leaves (`Math.pow(1)` is 1)")
 		}
 	} else {
 		r.undecided("anchor:pow", "-", "UNRESOLVED Math.pow")
